@@ -71,8 +71,8 @@ impl Property for C04 {
     }
     fn runs(&self, tier: Tier) -> u64 {
         match tier {
-            Tier::Quick => 20000,
-            Tier::Thorough => 200000,
+            Tier::Quick => 150000,
+            Tier::Thorough => 1500000,
         }
     }
     fn rule(&self) -> &'static str {
